@@ -1,7 +1,7 @@
 #!/bin/bash
 # usage: tools/run_all_seeds.sh [outfile]  -- applies every kept seed to /repo in turn (always reverted), runs the quick check of its property,
 # and records whether the check reported a VIOLATION (exit 1), stayed quiet (exit 0: MISSED) or was undecided (exit 2).
-OUT=${1:-/var/tmp/xvlogs/seeds_table.txt}
+OUT=${1:-/var/tmp/seeds_table.txt}
 : > $OUT
 for d in /verif/seeded/*/; do
   s=$(basename $d); pid=${s%-*}
